@@ -103,7 +103,7 @@ func gen(r *rng.R, tier string) fw.Case {
 		default:
 			mode = "wild"
 		}
-		rq, t := nbgen.GenSet(r, spec, tables, mode, false)
+		rq, t := nbgen.GenSet(r, spec, tables, mode, true)
 		tags = append(tags, "mode-"+mode)
 		tags = append(tags, t...)
 		if mode == "mixed" || rq.Prefix != nil {
@@ -180,6 +180,38 @@ func enumerate(tier string) []fw.Case {
 						out = append(out, c)
 					}
 				}
+			}
+		}
+	}
+	// every kind of effective target x every kind of overrides extension, one valid update each
+	spec.Limit = 0
+	spec.Targets = append(spec.Targets, nbenv.TargetSpec{ID: "tnp", HasAspect: true, Type: "nomodel", Version: "9"})
+	ttv := func(ty, ver string) *configapi.TargetTypeVersion {
+		return &configapi.TargetTypeVersion{TargetType: configapi.TargetType(ty), TargetVersion: configapi.TargetVersion(ver)}
+	}
+	for _, tg := range []string{"t1", "tx", "tna", "tnp", ""} {
+		for _, viaPrefix := range []bool{false, true} {
+			ovs := []map[string]*configapi.TargetTypeVersion{
+				nil,
+				{tg: ttv("model1", "1.0")},
+				{tg: ttv("nomodel", "0")},
+				{tg: nil},
+				{"other": ttv("model1", "1.0")},
+				{tg: ttv("model1", "1.0"), "t2": ttv("nomodel", "0")},
+			}
+			for _, ov := range ovs {
+				rq := &nbwire.Req{}
+				p := &nbwire.PathMsg{Target: tg, Elem: []*pb.PathElem{{Name: "foo"}}}
+				if viaPrefix {
+					rq.Prefix = &nbwire.PathMsg{Target: tg}
+					p.Target = "t2"
+				}
+				rq.Update = []nbwire.Update{{Path: p, Val: nbwire.Val{Kind: "S", Str: "v"}}}
+				if ov != nil {
+					rq.Exts = []nbwire.Ext{nbgen.OverridesExt(ov)}
+				}
+				out = append(out, fw.Case{Script: []string{nbwire.EncEnv(spec), "obs", strings.Join(append([]string{"nb.set"}, rq.Toks()...), " "), "nb.log", "obs"},
+					Tags: []string{"enum-target-override"}, Nontrivial: true})
 			}
 		}
 	}
